@@ -226,6 +226,7 @@ fn check_processes(ctx: &Ctx, st: &mut Stats) {
 }
 
 pub fn run(ctx: &Ctx) -> i32 {
+    crate::common::install_hang_watchdog(ctx, "exploration", 20);
     let kinds = catalogue(&ctx.pick(vec![2usize, 16], vec![1, 2, 5, 16, 64]), false);
     let mut st = Stats { interleavings: 0, calls: 0, thread_rounds: 0, process_lines: 0, distinct_obs: Default::default() };
     check_interleavings(ctx, &kinds, &mut st);
